@@ -65,9 +65,9 @@ PROPS["C14"] = {
     "crate": "rt",
     "groups": [
         {"id": "wellformed",
-         "quick": ["c14::c14_from_str_3", "c14::c14_from_string_3", "c14::c14_from_bytes_3", "c14::c14_clone_2", "c14::c14_eq_hash_str_2",
+         "quick": ["c14::c14_from_str_3", "c14::c14_from_string_3", "c14::c14_from_bytes_3", "c14::c14_clone_2", "c14::c14_clone_from_2", "c14::c14_eq_hash_str_2",
                    "c14::c14_eq_hash_mixed_2", "c14::c14_cstr_borrowed_4", "c14::c14_negative_twin"],
-         "thorough_adds": ["c14::c14_from_str_4", "c14::c14_from_string_4", "c14::c14_from_bytes_4", "c14::c14_clone_3",
+         "thorough_adds": ["c14::c14_from_str_4", "c14::c14_from_string_4", "c14::c14_from_bytes_4", "c14::c14_clone_3", "c14::c14_clone_from_3",
                            "c14::c14_eq_hash_str_3", "c14::c14_eq_hash_mixed_3", "c14::c14_cstr_borrowed_5"],
          "cbmc_args": LEAK, "timeout": 2400},
     ],
@@ -145,7 +145,8 @@ PROPS["C19"] = {
     "groups": [
         {"id": "skeletons",
          "quick": ["c19::c19_chain2", "c19::c19_star2", "c19::c19_chain3", "c19::c19_mixed3_late_clone",
-                   "c19::c19_borrowed_only", "c19::c19_future_object_chain2", "c19::c19_future_object_star2",
+                   "c19::c19_borrowed_only", "c19::c19_clone_end_clone", "c19::c19_chain2_caller_waker_dropped_first",
+                   "c19::c19_future_object_chain2", "c19::c19_future_object_star2",
                    "c19::c19_negative_twin"],
          "cbmc_args": LEAK, "timeout": 1800},
         {"id": "stream", "crate": "fut", "quick": ["c19_stream_object_chain2", "c19_stream_object_star2"],
@@ -221,7 +222,7 @@ PROPS["C16"] = {
     "pre": _c16_pre,
     "groups": [
         {"id": "views",
-         "quick": ["c16::c16_cbox_view", "c16::c16_carc_view", "c16::c16_slices_u8", "c16::c16_slices_u64", "c16::c16_slices_t3",
+         "quick": ["c16::c16_cbox_view", "c16::c16_carc_view", "c16::c16_carc_view_overaligned_opaque_clone", "c16::c16_slices_u8", "c16::c16_slices_u64", "c16::c16_slices_t3",
                    "c16::c16_cvec_u8_exact", "c16::c16_cvec_u64_exact", "c16::c16_cvec_u64_spare", "c16::c16_cvec_t3_empty",
                    "c16::c16_callback_view", "c16::c16_citerator_view", "c16::c16_citerator_view_droppable_items", "c16::c16_tags", "c16::c16_negative_twin"],
          "cbmc_args": LEAK, "timeout": 1200},
